@@ -86,12 +86,17 @@ def ancestors(n, edges):
 
 
 PLACEMENTS = ('flat', 'comp', 'split', 'deep')
+DERIVER_PLACEMENTS = PLACEMENTS + ('mixed',)
 
 
 def location(placement, idx):
     """Path of the compartment that holds step idx."""
     if placement == 'flat':
         return ()
+    if placement == 'mixed':
+        # derivers at different depths, the deeper one declared first;
+        # flow steps stay flat
+        return ('cm',) if idx % 2 == 0 else ()
     if placement == 'comp':
         return ('c',)
     if placement == 'split':
@@ -117,7 +122,7 @@ def world(n, edges, n_derivers, deriver_kind, placement, tss, dynamic=None):
     names = [NAMES[i] for i in range(n)]
     dnames = [f'z{i}' for i in range(n_derivers)]   # sort after flow steps
     all_out = [f'v_{x}' for x in names + dnames]
-    if dynamic == 'generate':
+    if dynamic in ('generate', 'gen-deriver'):
         all_out.append('v_new')
     outs_schema = {v: {'_default': None, '_updater': 'set', '_emit': True}
                    for v in all_out}
@@ -150,12 +155,13 @@ def world(n, edges, n_derivers, deriver_kind, placement, tss, dynamic=None):
         put(topology, loc + (dn,), {'outs': rel(loc, ('outs',)),
                                     'shared': rel(loc, ('shared',))})
     for i, name in enumerate(names):
-        loc = location(placement, i)
+        loc = location(placement, i) if placement != 'mixed' else ()
         spec = step_spec(name)
         if dynamic == 'delete' and i == 0:
             # step a deletes the last step (a leaf of a later layer)
             victim = n - 1
-            vloc = location(placement, victim)
+            vloc = location(placement, victim) if placement != 'mixed' \
+                else ()
             spec['schema']['victim_home'] = {}
             spec['update'] = {
                 '$n': {1: {'outs': {'v_a': '$tokval'},
@@ -173,6 +179,22 @@ def world(n, edges, n_derivers, deriver_kind, placement, tss, dynamic=None):
                                'processes': {},
                                'steps': {'$probes': {'new': newstep}},
                                'flow': {'new': []},
+                               'topology': {'new': {
+                                   'outs': ('..', 'outs'),
+                                   'shared': ('..', 'shared')}},
+                               'initial_state': {}}]}}},
+                '$else': {'outs': {'v_a': '$tokval'}}}
+            extra = {'root': rel(loc, ())}
+        elif dynamic == 'gen-deriver' and i == 0:
+            # a legacy deriver arrives at run time, listed under
+            # 'processes' of a _generate (no flow entry)
+            spec['schema']['root'] = {}
+            newstep = step_spec('new', 'D')
+            spec['update'] = {
+                '$n': {1: {'outs': {'v_a': '$tokval'},
+                           'root': {'_generate': [{
+                               'key': 'gen',
+                               'processes': {'$probes': {'new': newstep}},
                                'topology': {'new': {
                                    'outs': ('..', 'outs'),
                                    'shared': ('..', 'shared')}},
@@ -197,7 +219,8 @@ def world(n, edges, n_derivers, deriver_kind, placement, tss, dynamic=None):
         topo = {'outs': rel(loc, ('outs',)), 'shared': rel(loc, ('shared',))}
         topo.update(extra)
         put(topology, loc + (name,), topo)
-        deps = [rel(loc, location(placement, a) + (NAMES[a],))
+        deps = [rel(loc, (location(placement, a) if placement != 'mixed'
+                          else ()) + (NAMES[a],))
                 for (a, b) in edges if b == i]
         put(flow, loc + (name,), deps)
     state = {'kids': {'k0': {'v': 1}}} if dynamic == 'kids' else {}
@@ -303,7 +326,7 @@ def check(spec, ex):
         pids = [i['pid'] for i in invs]
         expected = set(alive)
         # dynamic worlds: what exists at phase start
-        if spec['dynamic'] == 'generate' and phase_no >= 2:
+        if spec['dynamic'] in ('generate', 'gen-deriver') and phase_no >= 2:
             expected = expected | {'new'}
         if spec['dynamic'] == 'delete' and phase_no >= 1:
             victim = NAMES[n - 1]
@@ -328,6 +351,12 @@ def check(spec, ex):
             return out
         pos = {i['pid']: k for k, i in enumerate(invs)}
         this_tok = {i['pid']: (i['pid'], i['n']) for i in invs}
+        if spec['dynamic'] == 'gen-deriver' and 'new' in pos and any(
+                pos[x] < pos['new'] for x in names if x in pos):
+            V('C05.derivers', 'generated-deriver-runs-after-flow-steps',
+              f'phase {phase_no}: order {pids}; the deriver generated at '
+              f'run time must run before the flow steps')
+            return out
         # derivers first, in declaration order, one at a time
         for k, dn in enumerate(dnames):
             if pos.get(dn) != k:
@@ -466,8 +495,13 @@ def jobs(ctx):
     # derivers only
     for nd, kind in ((1, 'steps'), (2, 'steps'), (1, 'process'),
                      (2, 'process')):
-        for placement in PLACEMENTS:
+        for placement in DERIVER_PLACEMENTS:
             out.append((0, (), nd, kind, placement, (1,)))
+    # derivers at different nesting depths, with every small DAG
+    for n in (1, 2, 3):
+        for edges in dags[n]:
+            for kind in ('steps', 'process'):
+                out.append((n, edges, 2, kind, 'mixed', (1,)))
     # dynamic worlds: step a deletes the last step / generates a new one
     for n in (2, 3, 4):
         for edges in dags[n]:
@@ -483,6 +517,7 @@ def jobs(ctx):
                                     'delete'))
         for edges in dags[n][:40 if ctx.quick else None]:
             out.append((n, edges, 0, 'steps', 'flat', (1,), 'generate'))
+            out.append((n, edges, 0, 'steps', 'flat', (1,), 'gen-deriver'))
         for edges in dags[n]:
             for placement in (('flat', 'split') if ctx.quick
                               else PLACEMENTS):
